@@ -1772,6 +1772,13 @@ func (kmc *KeystoreManagerForPoC) ChangePrivPassphrase(oldPrivPass, newPrivPass 
 	if err != nil {
 		return err
 	}
+	// When the manager is locked, ensure the new clear text master
+	// key is cleared from memory now that it is no longer needed.
+	defer func() {
+		if !kmc.unlocked {
+			newMasterPrivKey.Zero()
+		}
+	}()
 
 	err = db.Update(kmc.db, func(dbTransaction db.DBTransaction) error {
 		for _, addrManager := range kmc.managedKeystores {
@@ -1793,8 +1800,6 @@ func (kmc *KeystoreManagerForPoC) ChangePrivPassphrase(oldPrivPass, newPrivPass 
 		if err != nil {
 			return err
 		}
-		// When the manager is locked, ensure the new clear text master
-		// key is cleared from memory now that it is no longer needed.
 		// If unlocked, create the new passphrase hash with the new
 		// passphrase and salt.
 		var hashedPassphrase [sha512.Size]byte
